@@ -26,6 +26,10 @@ Definition c04_step_gen (conc : bool) (lower : str -> str) (c : cfg) (u : upolic
       (ok || (negb (o_served o) && match o_cookie o with CCleared => true | _ => false end)) &&
       (* whatever is re-saved keeps the lifetime bound *)
       (match o_cookie o with CSaved s' => s_lifetime_dl s' =? s_lifetime_dl s | _ => true end) &&
+      (* whatever is re-saved comes due for a check at most the validity TTL from now: periodic revalidation
+         cannot be postponed by the deadline written into the cookie (cookies presented in these histories were
+         all sealed by the proxy itself) *)
+      (conc || match o_cookie o with CSaved s' => s_valid_dl s' <=? o_now o + c_V c + 1 | _ => true end) &&
       (* the bound is the login's *)
       (conc || close (s_lifetime_dl s) (t0 + c_L c))
   end.
